@@ -11,7 +11,7 @@ from symv.hooks import Hooks
 
 META = {
     "level": "exploration",
-    "level_text": "For every monitored fuse call each original element (unique integer ids) is located bit-identically at the position the RESULT's own sub-index table prescribes, slices are disjoint, everything else is exactly zero, fused charge/direction follow the statement; unfuse_all + inverse permutation restores the original bit for bit; insert == concat; identical with the plan cache at sizes 0/1/default while hook H1 compares every cached plan with a fresh one. Per sampled structure all sparsity subsets (<=64, else sampled) and many ordered groupings are enumerated. Exploration; not exhaustive over structures. Later additions: signed zeros compared bit for bit, blocks of 2-4 element types, subjects with identity histories, one index object on several legs, fuse with empty groups, conj of fused-before arrays, a hunt for cache-key digest collisions (2x10^5 look-ups per case, every collision replayed). Round 9: user-defined symmetries; 6-8-leg subjects with one group of 5-7 axes (all-bra / all-ket groups, sectors with six or more odd charges inside the group, whole branches missing).",
+    "level_text": "For every monitored fuse call each original element (unique integer ids) is located bit-identically at the position the RESULT's own sub-index table prescribes, slices are disjoint, everything else is exactly zero, fused charge/direction follow the statement; unfuse_all + inverse permutation restores the original bit for bit; insert == concat; identical with the plan cache at sizes 0/1/default while hook H1 compares every cached plan with a fresh one. Per sampled structure all sparsity subsets (<=64, else sampled) and many ordered groupings are enumerated. Exploration; not exhaustive over structures. Later additions: signed zeros compared bit for bit, blocks of 2-4 element types, subjects with identity histories, one index object on several legs, fuse with empty groups, conj of fused-before arrays, a hunt for cache-key digest collisions (2x10^5 look-ups per case, every collision replayed). Round 9: user-defined symmetries; 6-8-leg subjects with one group of 5-7 axes (all-bra / all-ket groups, sectors with six or more odd charges inside the group, whole branches missing). Round 10: families differing two fuse levels down, fused a third time and unfolded completely, visited twice in random order with the plan cache on.",
     "technique": "runtime monitoring: element-placement oracle from the result's own sub-index table, bit-exact round trip, strategy differential, plan-cache hook",
     "rule": (
         "one evaluation = one fuse call judged by the placement oracle (+ unfuse round trip, + insert/concat differential for abelian arrays). "
